@@ -77,18 +77,25 @@ def decorate(hist, tr, pn, pbl, unit, rng, base=False):
     return out
 
 
-def random_scenarios(c, n, first_tr, node):
+ALT_CFG = '2,1000,100,10000'      # a finer global statistic: 100 buckets of 100 ms under the default 2 x 1000 ms view
+
+
+def random_scenarios(c, n, first_tr, node, alt=False):
     rng = c.rng
     scns = []
     for i in range(n):
         tr = first_tr + i
         if node:
-            pn, pbl = 20, 500
+            pn, pbl = (20, 500) if not alt else (100, 100)
             stock = [[2, 1000], [1, 1000], [4, 2000], [10, 5000], [20, 10000], [1, 500], [2, 2000], [5, 5000], [1, 10000], [2, 10000]]
+            if alt:
+                stock = [[2, 1000], [1, 1000], [10, 1000], [4, 2000], [5, 500], [20, 10000], [100, 10000], [1, 100], [2, 200], [1, 10000]]
             rng.shuffle(stock)
             views = stock[:rng.randint(1, 5)]
+            if alt:
+                views = [[2, 1000]] + [v for v in views if v != [2, 1000]]      # the node's own metric is the configured default view
             s = [dict(op='new', tr=tr, mode='node', pn=pn, pbl=pbl, unit=1, t=rng.choice([1, 499, 500, 777, 1000, 12345]),
-                      views=views, base=True)]
+                      views=views, base=True, **({'cfg': ALT_CFG} if alt else {}))]
         else:
             pn = rng.choice([1, 2, 3, 4, 5, 6, 8])
             pbl = rng.choice([1, 3, 100, 200, 250, 500, 1000])
@@ -107,7 +114,10 @@ def random_scenarios(c, n, first_tr, node):
                 k = rng.choice(KINDS)
                 s.append(dict(op='add', k=k, n=rng.choice([0, 1, 1, 2, 3, 7, 50])))
             elif x < 0.55:
-                s.append(dict(op='conc', c=rng.choice([1, 2, 3, 9])))
+                if node and rng.random() < 0.6:
+                    s.append(dict(op='gauge', d=rng.choice([1, 1, 1, -1, -1])))      # IncreaseConcurrency / DecreaseConcurrency of the node
+                else:
+                    s.append(dict(op='conc', c=rng.choice([1, 2, 3, 9])))
             elif x < 0.62:
                 s.append(dict(op='readarr'))
             elif x < 0.70:
@@ -141,7 +151,13 @@ def run_and_validate(c, drv, scns, tag):
     sp = os.path.join(c.scratch, tag + '.scn.ndjson')
     tp = os.path.join(c.scratch, tag + '.trace.ndjson')
     write_ndjson(sp, [o for s in scns for o in s])
-    c.run([drv, sp, tp], timeout=600)
+    env = vlib.goenv()
+    cfgs = {s[0].get('cfg', '') for s in scns}
+    if len(cfgs) == 1 and list(cfgs)[0]:
+        env['VERIF_STAT_CFG'] = list(cfgs)[0]       # non-default geometry of the global statistic (whole process)
+    elif len(cfgs) > 1:
+        raise MachineryError('scenarios of one driver run must share the statistic configuration')
+    c.run([drv, sp, tp], timeout=600, env=env)
     nlines = sum(1 for _ in open(tp))
     mism, consumed, r = c.validate('Window_Trace', tp, nlines)
     if consumed != nlines:
@@ -193,7 +209,7 @@ def nontrivial(s):
     """a scenario is non-trivial if it writes, then crosses a bucket boundary, then is read again"""
     wrote = False
     for o in s:
-        if o['op'] in ('add', 'conc'):
+        if o['op'] in ('add', 'conc', 'gauge'):
             wrote = True
         if o['op'] == 'tick' and wrote and o['d'] > 0:
             return True
@@ -281,8 +297,20 @@ def check(c, tier, replay):
     tr += nrand
     rs2 = random_scenarios(c, nrand, tr + 1, node=False)
     tr += nrand
+    nalt = 120 if not thorough else 1500      # the resource node over a finer global statistic (non-default configuration)
+    rs3 = random_scenarios(c, nalt, tr + 1, node=True, alt=True)
+    tr += nalt
+    # directed: a peak, the gauge drops, a second peak not above the first in a LATER bucket, then the window slides past the first
+    for t0 in (1, 1000, 1250):
+        for d1 in (100, 200, 300, 400):
+            for d2 in (600, 700, 800, 900):
+                tr += 1
+                rs3.append([dict(op='new', tr=tr, mode='node', pn=100, pbl=100, unit=1, t=t0, views=[[2, 1000], [10, 1000], [1, 1000]], base=True, cfg=ALT_CFG),
+                            dict(op='gauge', d=1), dict(op='gauge', d=1), dict(op='gauge', d=-1), dict(op='tick', d=d1),
+                            dict(op='gauge', d=1), dict(op='tick', d=d2), dict(op='tick', d=100), dict(op='tick', d=100), dict(op='gauge', d=-1),
+                            dict(op='tick', d=1000), dict(op='gauge', d=1)])
     # S3 + S4 ----------------------------------------------------------------------------
-    for tag, group in (('tlc', scns), ('node', rs), ('array', rs2)):
+    for tag, group in (('tlc', scns), ('node', rs), ('array', rs2), ('nodealt', rs3)):
         for i in range(0, len(group), 4000):
             part = group[i:i + 4000]
             mism, tp = run_and_validate(c, drv, part, '%s%d' % (tag, i))
